@@ -355,7 +355,7 @@ def small_graphs(rng, count, nmax=5, allow_parallel=True):
     return out[:count]
 
 
-def real_program(call_builder):
+def real_program(call_builder, timeout=30):
     """call_builder(solver) -> callable.  Runs the real generator on a real Solver; returns
     (decls, constraints, base, result) parsed, or raises."""
     from cspuz import Solver
@@ -363,7 +363,7 @@ def real_program(call_builder):
     call = call_builder(s)
     base = len(s.variables)
     cbase = len(s.constraints)
-    res = core.with_timeout(30, call)
+    res = core.with_timeout(timeout, call)
     decls, cs = exprio.parse_prog(exprio.pprog(s, base, cbase))
     return decls, cs, base, res
 
